@@ -2,6 +2,7 @@ package gortsplib
 
 import (
 	"crypto/rand"
+	"fmt"
 	"reflect"
 	"sync"
 	"time"
@@ -101,6 +102,10 @@ func (ssf *serverStreamFormat) writePacketRTP(pkt *rtp.Packet, ntp time.Time) er
 	maxPlainPacketSize := ssf.ssm.st.Server.MaxPacketSize
 	if ssf.ssm.srtpOutCtx != nil {
 		maxPlainPacketSize -= srtpOverhead + len(ssf.ssm.srtpOutCtx.mki)
+	}
+
+	if maxPlainPacketSize < 0 {
+		return fmt.Errorf("MaxPacketSize is too small")
 	}
 
 	plain := make([]byte, maxPlainPacketSize)
